@@ -18,6 +18,7 @@
 #include <fstream>
 #include <functional>
 #include <map>
+#include <set>
 #include <signal.h>
 #include <sstream>
 #include <string>
@@ -116,6 +117,7 @@ inline void parallel(const std::vector<std::function<void()>> &tasks) {
     Shm *mine = shm;
     std::vector<pid_t> pid(n, -1); std::vector<int> status(n, 0);
     size_t next = 0, running = 0, done = 0;
+    std::set<size_t> retried;
     fflush(stdout); fflush(stderr);
     while (done < n) {
         while (next < n && running < (size_t)std::max(1, opt.jobs)) {
@@ -126,7 +128,18 @@ inline void parallel(const std::vector<std::function<void()>> &tasks) {
         }
         int st; pid_t r = waitpid(-1, &st, 0);
         if (r <= 0) break;
-        for (size_t i = 0; i < n; i++) if (pid[i] == r) { status[i] = st; running--; done++; }
+        for (size_t i = 0; i < n; i++) if (pid[i] == r) {
+            // SIGKILL never comes from the code under test (sanitizers abort, wild accesses fault): it is the environment (the kernel's OOM killer was seen doing this when
+            // several explorations ran at once).  The task is run again from its start, once, before its death is taken for a finding.
+            if (WIFSIGNALED(st) && WTERMSIG(st) == SIGKILL && !pool[i].done && retried.insert(i).second) {
+                memset(&pool[i], 0, sizeof(Shm)); pool[i].exhaustive = 1;
+                pid_t p = fork();
+                if (p == 0) { shm = &pool[i]; tasks[i](); shm->done = 1; _exit(0); }
+                pid[i] = p;
+                break;
+            }
+            status[i] = st; running--; done++;
+        }
     }
     shm = mine;
     for (size_t i = 0; i < n; i++) {
@@ -213,6 +226,7 @@ inline int run_main(int argc, char **argv, const Harness &h) {
     fflush(stdout); fflush(stderr);
     pid_t pid = fork();
     if (pid == 0) {
+        setpgid(0, 0);       // its own process group: the tasks it forks are stopped together with it
         int fd = open(errfile.c_str(), O_WRONLY | O_CREAT | O_TRUNC, 0644);
         if (fd >= 0) { dup2(fd, 2); close(fd); }
         shm->exhaustive = 1;
@@ -224,7 +238,7 @@ inline int run_main(int argc, char **argv, const Harness &h) {
     for (;;) {
         pid_t r = waitpid(pid, &st, WNOHANG);
         if (r == pid) break;
-        if (opt.deadline > 0 && now_s() - t_start > opt.deadline + 60) { kill(pid, SIGKILL); waitpid(pid, &st, 0); killed = true; break; }
+        if (opt.deadline > 0 && now_s() - t_start > opt.deadline + 60) { kill(-pid, SIGKILL); kill(pid, SIGKILL); waitpid(pid, &st, 0); killed = true; break; }
         usleep(2000);
     }
     struct Viol { std::string sig, msg, hist, replay; bool confirmed; };
